@@ -244,8 +244,8 @@ func c17Run(p c17Plan, rnd *rand.Rand) c17Result {
 		case "waittimeout":
 			slack := dueAt - now()
 			var d time.Duration
-			if op.Aim == "early" && slack > int64(60*time.Millisecond) {
-				max := slack - int64(30*time.Millisecond)
+			if op.Aim == "early" && slack > int64(90*time.Millisecond) {
+				max := slack - int64(60*time.Millisecond)
 				if max > int64(80*time.Millisecond) {
 					max = int64(80 * time.Millisecond)
 				}
@@ -553,7 +553,7 @@ func runC17(tier string, seed int64, outdir string, replay string) error {
 		for i, c := range c17Corpus() {
 			jobs = append(jobs, job{c.class, c.plan, seed*1000 + int64(i)})
 		}
-		nRand, maxN := 56, 4
+		nRand, maxN := 108, 4
 		if tier == "thorough" {
 			nRand, maxN = 900, 6
 		}
